@@ -48,10 +48,7 @@ func c13dClientDiff(before, after string) string {
 	idx := func(l []map[string]any) map[string]map[string]any {
 		m := map[string]map[string]any{}
 		for _, c := range l {
-			id, _ := c["id"].(string)
-			if id == "" {
-				id, _ = c["ID"].(string)
-			}
+			id, _ := c["client_id"].(string)
 			m[id] = c
 		}
 		return m
